@@ -84,6 +84,7 @@ impl Prop for C06 {
                         extra_sink: 0,
                         order,
                         pages: 1,
+                        src_pieces: vec![],
                     });
                 }
             }
